@@ -34,13 +34,17 @@ def gen_cases(ctx):
         poles = [{"kind": "lorentz", "w": ctx.rng.choice([0.1, 0.3, 0.6]), "g": ctx.rng.choice([0.0, 0.02]), "deps": ctx.rng.choice([0.5, 1.5])}]
         if i % 2:
             poles.append({"kind": "drude", "w": ctx.rng.choice([0.1, 0.2]), "g": 0.01})
-        cases.append({"kind": "step", "shape": shape, "bt": bt, "box": box, "seed": ctx.rng.randint(0, 10**6), "steps": 2, "poles": poles, "eps": ctx.rng.choice([1.0, 2.25])})
+        cases.append({"kind": "step", "shape": shape, "bt": bt, "box": box, "seed": ctx.rng.randint(0, 10**6), "steps": 2, "poles": poles, "eps": ctx.rng.choice([1.0, 2.25]),
+                      # every other block is also conductive: the loss divide must apply to the polarisation feedback as well
+                      "sigma": [None, 2.0e4, 2.0e5][i % 3]})
     # stability: fixed corpus (incl. the known finding inputs) + random passive media
     stab = [{"poles": [{"kind": "lorentz", "w": 0.5, "g": 0.0, "deps": 3.0}], "cf": 0.99}, {"poles": [{"kind": "drude", "w": 0.8, "g": 0.01}], "cf": 0.99},
             {"poles": [{"kind": "lorentz", "w": 0.5, "g": 0.0, "deps": 3.0}], "cf": 0.5}, {"poles": [{"kind": "lorentz", "w": 0.1, "g": 0.01, "deps": 1.0}], "cf": 0.99},
             # resonance at / above the recurrence bound omega_0 dt >= 2 (must be rejected, or stay bounded), lightly and heavily damped
             {"poles": [{"kind": "lorentz", "w": 2.3, "g": 3.0, "deps": 1.0}], "cf": 0.5}, {"poles": [{"kind": "lorentz", "w": 2.05, "g": 1.2, "deps": 0.5}], "cf": 0.5},
-            {"poles": [{"kind": "lorentz", "w": 2.1, "g": 0.05, "deps": 1.0}], "cf": 0.5}]
+            {"poles": [{"kind": "lorentz", "w": 2.1, "g": 0.05, "deps": 1.0}], "cf": 0.5},
+            # conductive AND dispersive (metal-like conductivity with a Drude / Lorentz pole): passive, must stay bounded
+            {"poles": [{"kind": "drude", "w": 0.5, "g": 0.05}], "cf": 0.5, "sigma": 3.7e6}, {"poles": [{"kind": "lorentz", "w": 0.3, "g": 0.02, "deps": 1.0}], "cf": 0.5, "sigma": 6.0e5}]
     for _ in range(ctx.pick(2, 12)):
         k = ctx.rng.choice(["lorentz", "drude"])
         p = {"kind": k, "w": round(ctx.rng.uniform(0.02, 0.35), 3), "g": round(ctx.rng.choice([0.0, 0.01, 0.1]), 3)}
